@@ -646,3 +646,24 @@ Definition ssh_relay (msgs : list smsg) (sched : list bool) : list smsg :=
 Definition reqs_of (l : list smsg) : list smsg := filter is_req l.
 Definition data_of (l : list smsg) : bytes :=
   flat_map (fun m => match m with MData d => d | _ => [] end) l.
+
+(* closing: each direction is relayed by a data copier, but the goroutine that relays
+   the channel REQUESTS of the other side closes the destination channel (defer
+   dst.Close()) as soon as the source channel is closed - whatever the copier has
+   delivered by then.  [sched]: true = the copier forwards the next chunk, false = the
+   closing goroutine fires first. *)
+Fixpoint relay_until_close (chunks : list bytes) (sched : list bool) : bytes :=
+  match sched with
+  | [] => concat chunks
+  | true :: r => match chunks with c :: cs => c ++ relay_until_close cs r | [] => [] end
+  | false :: _ => []
+  end.
+
+(* TypeWriterReadCloser.sanitize, applied to what the session recording holds *)
+Definition sanitize_byte (b : N) : bytes :=
+  if (b =? 13)%N then []
+  else if (b =? 10)%N then [60; 98; 114; 47; 62]%N                                   (* <br/> *)
+  else if (b =? 39)%N then [92; 39]%N                                                (* \' *)
+  else if (b =? 8)%N then [60; 98; 97; 99; 107; 115; 112; 97; 99; 101; 62]%N         (* <backspace> *)
+  else [b].
+Definition sanitize (l : bytes) : bytes := flat_map sanitize_byte l.
